@@ -1,7 +1,7 @@
 """C13 -- Guarded arithmetic: tolerance law, guard=0 is fixed, quasi-exact equals exact.
 
 (a) comparison law, grid: (p,g) in {(0,0),(2,0),(2,1),(2,2),(3,3),(9,9)}; for every anchor in {0, +-1, +-10^(p+g), 10^30} every stored pair (a, a+delta)
-    with |delta| <= 3*geps+3 (capped at +-1600 around the interesting band for 9+9): a == b iff |a-b| < 10^g/2 stored units (iff a = b when g = 0),
+    (and the same under display settings below / between / above the precision: display is cosmetic) with |delta| <= 3*geps+3 (capped at +-1600 around the interesting band for 9+9): a == b iff |a-b| < 10^g/2 stored units (iff a = b when g = 0),
     otherwise the order is that of the stored values; exactly one of <, ==, > holds; != <= >= consistent; maxDiff/minDiff statistics updated as documented; Guarded.min returns the value that is lowest as stored.
 (b) guard = 0 is Fixed: every arithmetic operation of the C12 grid at p in {0,1,2,3} gives the same stored integer and the same str() under Guarded(p,0) and Fixed(p);
     and every enumerated profile under wigm / meek / warren gives the same record (actions, tallies, quotas, printed numbers, dump), arithmetic name/info/report apart.
@@ -39,6 +39,9 @@ class C13(Check):
         for p, g in PG:
             for anchor in (0, 1, -1, 10 ** (p + g), -(10 ** (p + g)), 10 ** 30):
                 yield {'k': 'cmp', 'p': p, 'g': g, 'anchor': str(anchor)}
+            # the display setting is cosmetic: the same law with display below, between and above precision
+            for d in sorted({0, max(0, p - 1), p + 1, p + g}):
+                yield {'k': 'cmp', 'p': p, 'g': g, 'anchor': str(10 ** (p + g) + 3), 'd': d}
         R = 40 if tier == 'quick' else 90
         for p in (0, 1, 2, 3):
             for a in range(-R, R + 1):
@@ -51,6 +54,8 @@ class C13(Check):
                 if r != 'wigm':
                     c['omega'] = max(1, p // 2)
                 g0.append(c)
+        g0.append({'rule': 'wigm', 'precision': 4, 'display': 2})
+        g0.append({'rule': 'meek', 'precision': 4, 'display': 1, 'omega': 2})
         g0.append({'rule': 'wigm', 'precision': 0})
         g0.append({'rule': 'wigm', 'precision': 3, 'integer_quota': True, 'defeat_batch': 'zero'})
         g0.append({'rule': 'meek', 'precision': 3, 'omega': 5, 'defeat_batch': 'none'})
@@ -77,7 +82,7 @@ class C13(Check):
     def cmp_law(self, case, acc):
         p, g = case['p'], case['g']
         anchor = int(case['anchor'])
-        V = arith.init_guarded(p, g)
+        V = arith.init_guarded(p, g, display=case.get('d'))
         geps = max(1, 10 ** g // 2)
         band = 3 * geps + 3
         if band > 1600:
